@@ -71,6 +71,12 @@ M = [
  ("fb_P_without_noise", "pyins/filters.py", "        P = Phi @ P @ Phi.transpose() + Qd\n\n    P_result = np.asarray(P_result)", "        P = Phi @ P @ Phi.transpose()\n\n    P_result = np.asarray(P_result)", ["C12"], "violation"),
  ("fb_gyro_table_after_integrate", "pyins/filters.py", "            error_model.correct_pva(integrator.get_pva(), x[ins_block]))\n            gyro_model.update_estimates(x[gyro_block])",
   "            error_model.correct_pva(integrator.get_pva(), x[ins_block]))\n            gyro_model.update_estimates(0.5 * x[gyro_block])", ["C12"], "violation"),
+ ("c05_vel_skew_sign", "pyins/error_model.py", "        result[np.ix_(samples, cls.DV_OUT, cls.PHI)] = util.skew_matrix(\n            trajectory[VEL_COLS])", "        result[np.ix_(samples, cls.DV_OUT, cls.PHI)] = -util.skew_matrix(\n            trajectory[VEL_COLS])", ["C05"], "violation"),
+ ("c05_euler_jacobian_sign", "pyins/error_model.py", "    result[:, 1, 0] = sin[:, 2]", "    result[:, 1, 0] = -sin[:, 2]", ["C05"], "violation"),
+ ("c05_rad_to_deg_dropped", "pyins/error_model.py", "    result *= transform.RAD_TO_DEG\n", "", ["C05"], "violation"),
+ ("c05_correct_velocity_rotation_transposed", "pyins/error_model.py", "        velocity_n = mat_tp @ (pva[VEL_COLS] - x[self.DV])", "        velocity_n = mat_tp.T @ (pva[VEL_COLS] - x[self.DV])", ["C05"], "violation"),
+ ("c05_correct_position_sign", "pyins/error_model.py", "        lla = transform.perturb_lla(pva[LLA_COLS], -x[self.DR])", "        lla = transform.perturb_lla(pva[LLA_COLS], x[self.DR])", ["C05"], "violation"),
+ ("c05_inverse_via_solve", "pyins/error_model.py", "        result = np.linalg.inv(self._transform_to_output_3d(pva))", "        result = np.linalg.solve(self._transform_to_output_3d(pva), np.eye(9))", ["C05"], "quiet-or-drift"),
 ]
 
 
